@@ -448,16 +448,20 @@ func main() {
 				continue
 			}
 			scs = append(scs, scenario(cfg{T: t.name, K: 3, CON: con, TokFamily: true, Preempt: 0, Env: ev.Pick(r, 0, 1)}, mk))
-			scs = append(scs, scenario(cfg{T: t.name, K: 3, CON: con, Preempt: ev.Pick(r, 0, 1), Env: ev.Pick(r, map[bool]int{true: 0, false: 1}[con], 2)}, mk))
+			scs = append(scs, scenario(cfg{T: t.name, K: 3, CON: con, Preempt: ev.Pick(r, 0, 1), Env: ev.Pick(r, map[bool]int{true: 0, false: 1}[con], map[bool]int{true: 1, false: 2}[con])}, mk))
 			scs = append(scs, scenario(cfg{T: t.name, K: 2, CON: con, BlockWise: true, BigBody: true, Preempt: ev.Pick(r, 0, 1), Env: 1}, mk))
 			if r.Thorough() {
-				scs = append(scs, scenario(cfg{T: t.name, K: 2, CON: con, Preempt: 2, Env: 2}, mk))
+				// (CON exchanges have ~4x the choice points of NON ones: preemption 2 with one deviation, or two deviations with preemption 1)
+				scs = append(scs, scenario(cfg{T: t.name, K: 2, CON: con, Preempt: 2, Env: map[bool]int{true: 1, false: 2}[con]}, mk))
+				if con {
+					scs = append(scs, scenario(cfg{T: t.name, K: 2, CON: con, Preempt: 1, Env: 2}, mk))
+				}
 			}
 		}
 	}
 	sum := mcx.Explore(r, scs, mcx.Config{Wall: ev.Pick(r, 4*time.Minute, 30*time.Minute)})
 	mcx.Report(r, scs, sum)
-	r.Set("rule", "scenario = transport x callers (2-3, distinct tokens, or colliding tokens: reuse of an outstanding token / two callers racing with the same token) x CON|NON x block-wise on/off (incl. 3-block response bodies); the scripted peer answers each request it saw on the wire in every order with piggy-backed / empty-ACK-then-separate (CON or NON) responses, at most one duplicated and one unknown-token response per deviation budget; all schedules within the preemption bound; oracle: a successful Do returns its own token and the nonce the peer produced for that request, no nonce is returned twice, a reused outstanding token is rejected and the first caller still succeeds; distinct outcome = distinct (peer history, per-caller result)")
+	r.Set("rule", "scenario = transport x callers (2-3, distinct tokens, or colliding tokens: reuse of an outstanding token / two callers racing with the same token) x CON|NON x block-wise on/off (incl. 3-block response bodies); the scripted peer answers each request it saw on the wire in every order with piggy-backed / empty-ACK-then-separate (CON or NON) responses, at most one duplicated and one unknown-token response per deviation budget; all schedules within the preemption bound; oracle: a successful Do returns its own token and the nonce the peer produced for that request, no nonce is returned twice, a reused outstanding token is rejected and the first caller still succeeds; distinct outcome = distinct (peer history, per-caller result); collide=after: a further caller re-uses the token of a call that has returned while second copies of the finished exchange's responses may still arrive (classified per duplicated message type)")
 	r.Sample(map[string]any{"scenario": scs[0].Name, "peer_history": "ack(b0) piggy(b1) sepCON(b0) dup(b1)"})
 	r.Assume("DTLS and TLS connections run the same udp/client.Conn and tcp/client.Conn code over pion/dtls and crypto/tls sockets, which are outside the explored code", "a call that never returns is a C09 matter; here it is still reported as a deadlock finding because the peer answers every request")
 	r.Finish()
